@@ -8,11 +8,11 @@ Open Scope string_scope.
 Theorem fire_source_is_model last interval deadline now :
   last <= now ->
   let h := {| h_last := last; h_interval := interval; h_deadline := deadline |} in
-  gen_fire interval (now - last) =
-  RsOk "fire" [("result", if fst (hb_fire now h) then 1 else 0);
+  gen_Heartbeat_fire interval (now - last) =
+  RsOk "Heartbeat_fire" [("result", if fst (hb_fire now h) then 1 else 0);
                ("timer.set_timeout#0", h_deadline (snd (hb_fire now h)) - now)].
 Proof.
-  intro Hle. unfold gen_fire, hb_fire, fudge_ms. cbv zeta. cbn [h_last h_interval h_deadline].
+  intro Hle. unfold gen_Heartbeat_fire, hb_fire, fudge_ms. cbv zeta. cbn [h_last h_interval h_deadline].
   destruct (interval <=? now - last + 5)%N eqn:E; cbn [fst snd h_deadline].
   - replace (now + interval - now) with interval by lia. reflexivity.
   - apply N.leb_gt in E. replace (now + (interval - (now - last)) - now) with (interval - (now - last)) by lia. reflexivity.
